@@ -239,7 +239,11 @@ def run_batch(b):
         realnet.run_cases(acc, b["real"])
         return acc
     for case in b["cases"]:
-        execute(acc, case)
+        if case.get("twin"):
+            from bvm import twin
+            twin.twin_outbound(acc, case)
+        else:
+            execute(acc, case)
     return acc
 
 
@@ -269,6 +273,10 @@ def plan(tier, seed):
             for w in (["fixed50"] if q else ["full", "fixed7", "zero-window"]):
                 cases.append({"seed": seed * 59 + k, "submitters": 2, "per": 3, "write": w, "inbound": 2 if k % 3 == 0 else 0, "strategy": "rw", "p": 0.02,
                               "role": ("client", "server")[k % 2], "batch": k % 4 == 1, "park_worker": [who, k]})
+    for i in range(16 if q else 300):
+        # a second node object in the same process submits its own messages on its own connection (bvm/twin.py)
+        cases.append({"twin": True, "seed": seed * 2741 + i, "strategy": ("rr", "rw")[i % 2], "p": rng.choice([0.02, 0.1]), "submitters": rng.choice([1, 2, 3]),
+                      "per": rng.choice([1, 3, 8]), "frag": rng.choice([None, [1, 7, 50], [50, 4096]]), "batch": i % 3 == 0})
     for i in range(6 if q else 60):
         # aggregate above the 256 KiB batching limit, handed over in one send_messages() call
         cases.append({"seed": seed * 733 + i, "submitters": rng.choice([1, 2]), "per": 8, "big": True, "batch": True,
@@ -290,12 +298,16 @@ def main(tier, seed):
                           ["node-originated CER/CEA/DWR/DWA/DPR/DPA are legal in the outbound stream when they appear whole at message boundaries",
                            "vnet models Linux TCP send(): accepts a prefix or raises BlockingIOError",
                            "quiescence = all queues and buffers empty and two state-machine ticks without change"],
-                          t0, require_counters=("executions", "steps", "partial_sends", "batch_limit_reached", "inbound_injected_on_partial_write", "real_loopback_ok", "submitter_parked_while_others_write", "library_thread_parked_while_messages_are_submitted"))
+                          t0, require_counters=("executions", "steps", "partial_sends", "batch_limit_reached", "inbound_injected_on_partial_write", "real_loopback_ok", "submitter_parked_while_others_write", "library_thread_parked_while_messages_are_submitted", "twin_node_executions"))
 
 
 def replay(w):
     acc = harness.Acc()
-    execute(acc, w["witness"]["case"])
+    if w["witness"]["case"].get("twin"):
+        from bvm import twin
+        twin.twin_outbound(acc, w["witness"]["case"])
+    else:
+        execute(acc, w["witness"]["case"])
     for v in acc.violations:
         print("VIOLATION property=C05 replay=<this>", v["key"], v["what"][:300])
     return 1 if acc.violations else 0
